@@ -44,6 +44,10 @@ fn main() {
                 usage();
             }
             let id = &args[2];
+            if std::env::var("RUST_LOG").is_ok() {
+                // library traces for triage (replay only; never enabled in checks)
+                let _ = tracing_subscriber::fmt().with_env_filter(tracing_subscriber::EnvFilter::from_default_env()).without_time().with_ansi(false).with_writer(std::io::stdout).try_init();
+            }
             let text = std::fs::read_to_string(&args[3]).unwrap_or_else(|e| {
                 eprintln!("cannot read {}: {e}", args[3]);
                 std::process::exit(2);
